@@ -97,6 +97,13 @@ Proof.
   intros Hs. destruct (proj1 (crypt_defined pw salt) Hs) as (h & Hh). exists h. split; [exact Hh|apply equals_crypt3; exact Hh].
 Qed.
 
+Theorem equals_crypt3_alphabet pw s0 s1 rest :
+  index_of s0 ALPHABET O <> None -> index_of s1 ALPHABET O <> None ->
+  exists h, crypt pw (s0 :: s1 :: rest) = Some h /\ fcrypt pw (s0 :: s1 :: rest) = Ok (h ++ [0]).
+Proof.
+  intros H0 H1. apply equals_crypt3_total. unfold alphabet_salt. cbn [length nth]. split; [lia|]. split; assumption.
+Qed.
+
 (* the hypotheses are met: the repo's own test vector *)
 Example equals_crypt3_ex :
   alphabet_salt [65; 65] /\
